@@ -1,6 +1,8 @@
 package main
 
 import (
+	"golang.org/x/tools/go/ssa"
+	"strings"
 	"fmt"
 	"go/types"
 	"math/big"
@@ -126,6 +128,12 @@ func (ex *Exec) load(st *State, addr Val, t types.Type) Val {
 			ex.cx.assume(not(eq(v, nilIface())))
 			ex.cx.note("io.%s is treated as a non-nil constant", a.G.Name())
 			return Sc{v}
+		}
+		// an unexported package-level function variable that no function of its package ever
+		// assigns (a diagnostics hook left nil) is nil: nothing else can set it
+		if _, isFunc := t.Underlying().(*types.Signature); isFunc && !a.G.Object().Exported() && a.G.Pkg != nil && strings.HasPrefix(a.G.Pkg.Pkg.Path(), modPath) && !globalAssigned(a.G) {
+			ex.cx.note("package-level function variable %s.%s is never assigned in its package: it is nil", a.G.Pkg.Pkg.Name(), a.G.Name())
+			return Sc{tNull}
 		}
 		ref := ex.globalRef(a.G)
 		return ex.loadViaRef(st, ref, t)
@@ -342,4 +350,56 @@ func (ex *Exec) sliceWF(s Term) Term {
 	}
 	return and(app(SBool, "<=", intLit(0), off), app(SBool, "<=", intLit(0), ln), app(SBool, "<=", ln, cp),
 		app(SBool, "<=", cp, bigLit(pow2(50))), app(SBool, "<=", off, bigLit(pow2(50))))
+}
+
+var globalStores = map[*ssa.Package]map[*ssa.Global]bool{}
+
+// globalAssigned: some function of the global's package (initialisers included) stores to it
+// or takes its address for another purpose than loading.
+func globalAssigned(g *ssa.Global) bool {
+	pkg := g.Pkg
+	m, ok := globalStores[pkg]
+	if !ok {
+		m = map[*ssa.Global]bool{}
+		var visit func(f *ssa.Function)
+		seen := map[*ssa.Function]bool{}
+		visit = func(f *ssa.Function) {
+			if f == nil || seen[f] {
+				return
+			}
+			seen[f] = true
+			for _, b := range f.Blocks {
+				for _, ins := range b.Instrs {
+					for _, op := range ins.Operands(nil) {
+						gl, isG := (*op).(*ssa.Global)
+						if !isG {
+							continue
+						}
+						if ld, isLoad := ins.(*ssa.UnOp); isLoad && ld.X == ssa.Value(gl) {
+							continue // a plain load
+						}
+						m[gl] = true // store, address taken, passed along
+					}
+				}
+			}
+			for _, a := range f.AnonFuncs {
+				visit(a)
+			}
+		}
+		for _, mem := range pkg.Members {
+			switch x := mem.(type) {
+			case *ssa.Function:
+				visit(x)
+			case *ssa.Type:
+				for _, t := range []types.Type{x.Type(), types.NewPointer(x.Type())} {
+					ms := pkg.Prog.MethodSets.MethodSet(t)
+					for i := 0; i < ms.Len(); i++ {
+						visit(pkg.Prog.MethodValue(ms.At(i)))
+					}
+				}
+			}
+		}
+		globalStores[pkg] = m
+	}
+	return m[g]
 }
